@@ -21,6 +21,7 @@ Not covered here: the chrono/time conversions (C16 models the foreign crates abs
 import JulianVerif.Lemmas.CheckedMisc
 import JulianVerif.Lemmas.CheckedCmp
 import JulianVerif.Lemmas.GenLibWF
+import JulianVerif.Lemmas.GenKernels
 namespace JV.C05
 open JV Spec
 
@@ -324,5 +325,20 @@ theorem generated_helpers :
     Gen.monthNumber_eq, Gen.monthPred_eq, Gen.monthSucc_eq, Gen.weekdayNumber_eq, Gen.weekdayPred_eq,
     Gen.weekdaySucc_eq, Gen.calendarGap_eq, Gen.calendarReformation_eq, Gen.calendarIsReforming_eq,
     Gen.calendarIsProleptic_eq, Gen.calendarREFORM1582_eq⟩
+
+/-- the nine inner.rs kernels as translated by the second translator (bin/libgen, every `/`, `%`, `+`, `-`, `*`
+and `as` a checked step) are, for all arguments, the functions the first translator (bin/srcgen) produced
+and the theorems above are about: two independently written readings of the same source, proved equal -/
+theorem generated_kernels_agree :
+    (∀ d, Gen.kDecomposeJulian d = Chk.decomposeJulian d)
+    ∧ (∀ y o, Gen.kComposeJulian y o = Chk.composeJulian y o)
+    ∧ (∀ j, Gen.kJdn2julian j = Chk.jdn2julian j) ∧ (∀ y o, Gen.kJulian2jdn y o = Chk.julian2jdn y o)
+    ∧ (∀ j, Gen.kJdn2gregorian j = Chk.jdn2gregorian j) ∧ (∀ y o, Gen.kGregorian2jdn y o = Chk.gregorian2jdn y o)
+    ∧ (∀ v l u, Gen.kCmpIntRange v l u = Chk.cmpIntRange v l u)
+    ∧ (∀ a b c, Gen.kCmpYmRange a b c = Chk.cmpYmRange a b c)
+    ∧ (∀ a m b n, Gen.kGapKindForDates a m b n = Chk.gapKindForDates a m b n) :=
+  ⟨Gen.kDecomposeJulian_eq, Gen.kComposeJulian_eq, Gen.kJdn2julian_eq, Gen.kJulian2jdn_eq,
+    Gen.kJdn2gregorian_eq, Gen.kGregorian2jdn_eq, Gen.kCmpIntRange_eq, Gen.kCmpYmRange_eq,
+    Gen.kGapKindForDates_eq⟩
 
 end JV.C05
